@@ -669,6 +669,17 @@ class SymSet(object):
 
 
 def call_method(eng, recv, name, args, kwargs, st):
+    from .interp import OpaqueObjList
+
+    if isinstance(recv, OpaqueObjList):
+        if name == "append" and len(args) == 1:
+            if st.guards:
+                raise NeedFork("append to an opaque list under a merge guard")
+            if recv.on_append is not None:
+                recv.on_append(st, args[0])
+            recv.appended.append(args[0])
+            return None
+        raise Unsupported("opaque list .%s" % name)
     if isinstance(recv, SMap):
         return smap_method(eng, recv, name, args, kwargs, st)
     if isinstance(recv, SStr):
